@@ -339,12 +339,19 @@ impl IsoLiteralCompilerVisitor<'_> {
                     iso_template_literal.field_type, iso_template_literal.field_name
                 );
 
-                // hoist import
-                self.imports.push(IsographImport {
-                    path: file_to_artifact.display().to_string().into(),
-                    item: ident_name.clone().into(),
-                    unresolved_mark: self.unresolved_mark,
-                });
+                // hoist import, once per module: the same entrypoint may be used several times,
+                // and importing the same binding twice is a syntax error
+                let already_hoisted = self
+                    .imports
+                    .iter()
+                    .any(|import| *import.item == *ident_name);
+                if !already_hoisted {
+                    self.imports.push(IsographImport {
+                        path: file_to_artifact.display().to_string().into(),
+                        item: ident_name.clone().into(),
+                        unresolved_mark: self.unresolved_mark,
+                    });
+                }
 
                 build_ident_expr_for_hoisted_import(&ident_name, self.unresolved_mark)
             }
